@@ -67,6 +67,10 @@ var programs = []string{
 	// pointer-typed I/O: the compiler accepts it, so the writer may be handed such a circuit
 	"package main\nfunc main(a *uint8, b uint8) uint8 {\n\treturn b\n}\n",
 	"package main\ntype S struct {\n\tx uint8\n\tp *uint8\n}\nfunc main(a S, b uint8) uint8 {\n\treturn a.x + b\n}\n",
+	// pointer-typed RESULTS (C14-9 review: the compiler emitted circuits whose output wires no gate drives)
+	"package main\nfunc main(a, b uint8) *uint8 {\n\treturn &a\n}\n",
+	"package main\nfunc main(a, b uint8) (uint8, *uint8) {\n\treturn a + b, &b\n}\n",
+	"package main\nfunc main(a, b [4]byte) *[4]byte {\n\treturn &a\n}\n",
 }
 
 func buildCircuit(k cs) (*circuit.Circuit, error) {
